@@ -56,6 +56,17 @@ impl Rng {
             1e21, 0.1 + 0.2, 9007199254740993.0, 1e-7, 3.0, 360.0, 90.0, 180.0, -90.0, 45.0,
         ])
     }
+    /// an angle argument: half the time one of the listed (typical) values, otherwise a value right next to one of the
+    /// thresholds the builders compare against (0, 90, 180, 360), or an arbitrary one
+    pub fn deg(&mut self, base: &[f64]) -> f64 {
+        match self.below(4) {
+            0 | 1 => *self.pick(base),
+            2 => { let t = *self.pick(&[0.0, 90.0, 180.0, 360.0, 360.0]); let d = *self.pick(&[1e-12, 1e-9, 1e-6, 1e-3, 4e-3, 0.05]);
+                   let v = if self.coin() { t - d } else { t + d }; if v <= 0.0 && !base.iter().any(|b| *b <= 0.0) { t + d } else { v } }
+            _ => { let lo = base.iter().cloned().fold(f64::INFINITY, f64::min); let hi = base.iter().cloned().fold(f64::NEG_INFINITY, f64::max);
+                   let v = self.uniform(lo, hi); if v == 0.0 { 1.0 } else { v } }
+        }
+    }
     pub fn angle(&mut self) -> f64 {
         match self.below(4) {
             0 => *self.pick(&[0.0, 90.0, 180.0, 270.0, 360.0, -90.0, -180.0, 45.0, 30.0, 60.0, 120.0, 450.0, -720.0, 1.0, 359.0]),
